@@ -77,11 +77,18 @@ pub fn ff_dispatch(p_idx: usize, a: u128, b: u128, c: u128) -> String {
         3 => ff_line::<{ primes::U128_LARGE_1 }>(a, b, c),
         4 => ff_line::<{ primes::U128_LARGE_2 }>(a, b, c),
         5 => ff_line::<{ primes::U128_LARGE_3 }>(a, b, c),
-        _ => ff_line::<{ primes::U128_LARGE_4 }>(a, b, c),
+        6 => ff_line::<{ primes::U128_LARGE_4 }>(a, b, c),
+        7 => ff_line::<{ EXTRA_MODULI[0] }>(a, b, c),
+        8 => ff_line::<{ EXTRA_MODULI[1] }>(a, b, c),
+        _ => ff_line::<{ EXTRA_MODULI[2] }>(a, b, c),
     }
 }
 
-pub const PRIMES: [u128; 7] = [
+/// `FiniteField<P>` is generic in `P`: three moduli the crate does NOT export, spread over
+/// (2^96, 2^127) where every intermediate of the overflow-free multiplication is widest
+pub const EXTRA_MODULI: [u128; 3] = [(1u128 << 96) + 61, (1u128 << 107) - 1, (1u128 << 126) - 137];
+
+pub const PRIMES: [u128; 10] = [
     primes::U32_TINY,
     primes::U32_SMALL,
     primes::U64_LARGEST,
@@ -89,6 +96,9 @@ pub const PRIMES: [u128; 7] = [
     primes::U128_LARGE_2,
     primes::U128_LARGE_3,
     primes::U128_LARGE_4,
+    EXTRA_MODULI[0],
+    EXTRA_MODULI[1],
+    EXTRA_MODULI[2],
 ];
 
 /// a value with exactly `bits` significant bits (reduced modulo `p`)
@@ -130,7 +140,7 @@ pub fn ring_lines(rng: &mut Rng, idx: u64) -> Vec<String> {
     let mut out = Vec::new();
     match idx % 6 {
         0 | 1 => {
-            let pi = rng.below(7) as usize;
+            let pi = if rng.chance(1, 6) { 7 + rng.below(3) as usize } else { rng.below(7) as usize };
             let p = PRIMES[pi];
             let (mut a, mut b, c) = (residue(rng, p), residue(rng, p), residue(rng, p));
             // directed family: operand sizes straddling the point where a*b stops fitting in a u128
